@@ -1,10 +1,50 @@
-(* C05 — views re-converge to the live set once faults stop. *)
+(* C05 — views re-converge to the live set once faults stop.
+   Models: Model/Core.v, Model/Cluster.v (the general cluster: failed probes, timers, accusations,
+   refutations, gossip, push/pull, duplication/reordering/loss, UpdateNode, Leave).
+   What is proved is the safety half the convergence argument rests on — no claim ever outruns its
+   subject, so a refutation outranks everything and is accepted wherever it arrives.  What is NOT proved,
+   and is false as the property is worded: that the refutation (or anything else) ever arrives — see the
+   end of this file. *)
 From Coq Require Import List NArith ZArith Bool.
 Import ListNotations.
-From VF Require Import Base Core Core_lemmas Core_inv Core_props.
+From VF Require Import Base Core Core_lemmas Core_inv Core_props Cluster Cluster_proofs Below_proofs Below_cluster.
 
-(* false accusations do not stick: an accusation that reaches its subject at an incarnation not
-   below the subject's own is answered by an incarnation above it ... *)
+(* in every reachable state of the cluster, under every schedule, every claim about a member — a record
+   held by any node, a broadcast queued anywhere, anything ever put on the network — carries at most
+   that member's own incarnation counter *)
+Theorem C05_claims_below_owner : forall cs acts,
+  Forall (fun cm => good_cfg (fst cm)) cs -> NoDup (map (fun cm => self (fst cm)) cs) ->
+  grun_ok (boot_world cs) acts ->
+  let w := fst (grun (boot_world cs) acts) in
+  forall cx sx, In (cx, sx) (wnodes w) ->
+    (forall c s n r, In (c, s) (wnodes w) -> lk s n = Some r -> n = self cx -> (rinc r <= linc sx)%N) /\
+    (forall c s k m, In (c, s) (wnodes w) -> In (k, m) (bq s) -> mname m = self cx -> (minc m <= linc sx)%N) /\
+    (forall p, In p (wpool w) -> pname p = self cx -> (pinc p <= linc sx)%N).
+Proof. exact claims_below_owner. Qed.
+Print Assumptions C05_claims_below_owner.
+
+(* the inductive step: one action of the cluster keeps the invariant [BW] *)
+Theorem C05_step_invariant : forall w g, BW w -> gact_ok w g ->
+  BW (fst (gstep w g)) /\ (forall n inc, owner_le w n inc -> owner_le (fst (gstep w g)) n inc).
+Proof. exact gstep_BW. Qed.
+Print Assumptions C05_step_invariant.
+
+(* false accusations do not stick: a running member that hears an accusation at or above its record's
+   incarnation moves strictly above every record of it held anywhere, every queued broadcast about it and
+   everything ever sent about it, and queues its alive message *)
+Theorem C05_refutation_outranks_all : forall w i c s r inc from,
+  BW w -> nth_error (wnodes w) i = Some (c, s) -> leaving s = false ->
+  lk s (self c) = Some r -> rst r = Alive -> (rinc r <= inc)%N -> below_max inc -> below_max (linc s) ->
+  let s' := fst (do_suspect c s inc (self c) from) in
+  s' = refute c s r inc /\
+  alookup (kaddr (raddr r)) (bq s') = Some (BAlive (linc s') (self c) (raddr r) (rmeta r) (rvsn r)) /\
+  (forall cj sj rj, In (cj, sj) (wnodes w) -> lk sj (self c) = Some rj -> (rinc rj < linc s')%N) /\
+  (forall cj sj k m, In (cj, sj) (wnodes w) -> In (k, m) (bq sj) -> mname m = self c -> (minc m < linc s')%N) /\
+  (forall p, In p (wpool w) -> pname p = self c -> (pinc p < linc s')%N).
+Proof. exact refutation_outranks_all. Qed.
+Print Assumptions C05_refutation_outranks_all.
+
+(* the same for a dead claim *)
 Theorem C05_accusation_refuted : forall c s inc from r,
   Inv c s -> leaving s = false -> lk s (self c) = Some r -> rst r = Alive -> (rinc r <= inc)%N ->
   do_suspect c s inc (self c) from = (refute c s r inc, []) /\
@@ -12,8 +52,58 @@ Theorem C05_accusation_refuted : forall c s inc from r,
 Proof. intros. split; [apply suspect_self_refuted | apply dead_self_refuted]; assumption. Qed.
 Print Assumptions C05_accusation_refuted.
 
-(* ... with the refutation queued for gossip *)
-Theorem C05_refutation_outranks : forall c s r accused,
-  below_max accused -> below_max (linc s) -> refutation_of c s (refute c s r accused) r accused.
-Proof. exact refute_effect. Qed.
-Print Assumptions C05_refutation_outranks.
+(* ... and whoever processes that alive message while holding any older record of the member at the
+   same address — Alive, Suspect, Dead or Left — lists it alive with the metadata the message carries *)
+Theorem C05_refutation_accepted : forall c s inc name addr meta vsn r,
+  lk s name = Some r -> name <> self c -> raddr r = addr -> (rinc r < inc)%N -> vsn_bad vsn = false ->
+  let s' := fst (do_alive c s inc name addr meta vsn false) in
+  exists r', lk s' name = Some r' /\ rst r' = Alive /\ rinc r' = inc /\ raddr r' = addr /\ rmeta r' = meta.
+Proof. exact newer_alive_accepted. Qed.
+Print Assumptions C05_refutation_accepted.
+
+(* hearsay (a peer's Suspect/Dead entry in a push/pull) never removes a member: C09_hearsay *)
+Theorem C05_hearsay_only_suspects : forall c s rs inc n addr meta vsn r,
+  Inv c s -> lk s n = Some r -> rst r = Alive -> n <> self c -> (rs = Dead \/ rs = Suspect) ->
+  let '(s', evs) := do_merge c s rs inc n addr meta vsn in
+  evs = [] /\ view s' n = view s n.
+Proof. exact hearsay_keeps_member. Qed.
+Print Assumptions C05_hearsay_only_suspects.
+
+(* non-vacuity: three nodes learn each other; node 1's probe of member 2 fails and the suspicion is
+   gossiped; member 2 hears it, refutes (incarnation 2) and node 1 accepts the refutation; member 2's own
+   probe of member 3 fails and its timer fires *)
+Definition cfgn (n : N) : cfg :=
+  mkCfg n n [1;5;2;0;0;0]%N 0 30000000000 2 4000000000 6 [24000000000;11381000000;4000000000]%Z 8 true false [] true.
+Definition sched : list gact :=
+  [GA (WSnapshot 0); GA (WSnapshot 1); GA (WSnapshot 2);
+   GA (WDeliver 0 0); GA (WDeliver 0 1); GA (WDeliver 1 1); GA (WDeliver 1 2); GA (WDeliver 2 2); GA (WDeliver 2 0); GA (WDeliver 1 0);
+   GProbeFail 0 2; GA (WGossip 0); GA (WDeliver 1 0); GA (WDeliver 1 1); GA (WDeliver 1 2); GA (WGossip 1);
+   GA (WDeliver 0 0); GA (WDeliver 0 1); GA (WDeliver 0 2); GA (WDeliver 0 3); GA (WDeliver 0 4);
+   GProbeFail 1 3; GA (WAdvance 1 30000000000); GA (WGossip 1)].
+Example C05_nonvacuous :
+  let cs := [(cfgn 1, 10%N); (cfgn 2, 20%N); (cfgn 3, 30%N)] in
+  Forall (fun cm => good_cfg (fst cm)) cs /\ NoDup (map (fun cm => self (fst cm)) cs) /\
+  grun_ok (boot_world cs) sched /\
+  let '(w, evs) := grun (boot_world cs) sched in
+  map (fun cs => (linc (snd cs), map (fun p => (fst p, rinc (snd p), rst (snd p))) (recs (snd cs)))) (wnodes w) =
+    [(1, [(1, 1, Alive); (3, 1, Alive); (2, 2, Alive)]);
+     (2, [(2, 2, Alive); (1, 1, Alive); (3, 1, Dead)]);
+     (1, [(3, 1, Alive); (1, 1, Alive)])]%N /\
+  evs = [EvJoin 3 3 30; EvJoin 2 2 20; EvJoin 1 1 10; EvJoin 1 1 10; EvJoin 3 3 30; EvLeave 3 3 30]%N.
+Proof.
+  cbv zeta. split; [|split; [|split]].
+  - repeat constructor.
+  - cbn. repeat constructor; cbn; intuition discriminate.
+  - apply grun_okb_ok. vm_compute. reflexivity.
+  - vm_compute. split; reflexivity.
+Qed.
+
+(* The property as worded ("if the live nodes' member lists still connect them ... then every live node's
+   Members() is exactly the live set") is FALSE of the implementation: known finding D-C05, with a
+   deterministic two-node replay in corpus/cluster/defects.json that the check re-runs on every invocation.
+   The network pool of this model never forgets a message, so the decisive fact of that history — the
+   refutation's retransmissions are used up while nobody can hear them, and nothing re-sends it because
+   accusations at the stale incarnation are ignored by their subject, acknowledgements do not clear a
+   suspicion and push/pull only ever picks Alive peers — is outside what this model can express; no
+   [_refuted] theorem is therefore stated here, and no convergence theorem either (peer selection is
+   random in the code: convergence for every schedule is not true of any faithful model). *)
